@@ -19,12 +19,18 @@ from symx.runner import Case, main_run, replay_file
 PROP = 'C05'
 
 
-def make(ctx, conv, bounds_coords=False):
+INT_COORDS = False
+
+
+def make(ctx, conv, bounds_coords=False, int_coords=False):
+    global INT_COORDS
     builders.BOUNDS_AS_COORDS = bounds_coords
+    INT_COORDS = int_coords
     try:
         ds, cv, info = _make(ctx, conv)
     finally:
         builders.BOUNDS_AS_COORDS = False
+        INT_COORDS = False
     # the cells that can be selected are the cells the dataset describes
     from harness import geomref
     geomref.check(ctx, ds, cv, kind=conv)
@@ -52,7 +58,11 @@ def _make(ctx, conv):
                 'when': (('y', 'x'), (numpy.datetime64('2020-01-01T00:00', 'ns') + numpy.arange(ny * nx) * numpy.timedelta64(1, 'h')).reshape(ny, nx)),
                 'lag': (('x', 'y'), (numpy.arange(ny * nx) * numpy.timedelta64(90, 'm')).astype('timedelta64[ns]').reshape(nx, ny)),
                 'clock': (('t',), numpy.array([5.0, 6.0]))}
-        ds = builders.cf1d(ny, nx, data_vars=data)
+        if INT_COORDS:
+            # whole-degree coordinates stored in integer types, odd spacings (cell edges are half-way values)
+            ds = builders.cf1d(ny, nx, lat=numpy.array([10, 11], dtype='int32'), lon=numpy.array([100, 103], dtype='int64'), data_vars=data)
+        else:
+            ds = builders.cf1d(ny, nx, data_vars=data)
         cv = CFGrid1D(ds)
         info = dict(kinds={'face': (('y', 'x'), (ny, nx))}, geometry=['lat', 'lon'])
     elif conv in ('cf2d', 'shoc_simple'):
@@ -288,8 +298,8 @@ class DescendingTree:
         return numpy.sort(hits)[::-1]
 
 
-def body_points(ctx, conv, nreq, policy, api, dimname, boundary=False, bounds_coords=False, relabel=False):
-    ds, cv, info = make(ctx, conv, bounds_coords)
+def body_points(ctx, conv, nreq, policy, api, dimname, boundary=False, bounds_coords=False, relabel=False, int_coords=False):
+    ds, cv, info = make(ctx, conv, bounds_coords, int_coords)
     polygons = cv.polygons
     N = len(polygons)
     dims, shape = info['kinds']['face']
@@ -357,7 +367,8 @@ def body_points(ctx, conv, nreq, policy, api, dimname, boundary=False, bounds_co
     if relabel:
         # a table whose index is not 0..n-1 (rows picked out of a larger table): requests are still answered row by
         # row, in row order, and numbered by row number
-        df.index = [7, 3, 5, 1][:nreq]
+        # (a list of labels, or the range index that a strided slice of a larger table keeps)
+        df.index = pandas.RangeIndex(4, 4 + 2 * nreq, 2) if relabel == 'range' else [7, 3, 5, 1][:nreq]
     try:
         out = point_extraction.extract_dataframe(ds, df, ('lon', 'lat'), point_dimension=dim, missing_points=policy)
     except point_extraction.NonIntersectingPoints as e:
@@ -448,6 +459,10 @@ def cases(tier):
             for policy in ('drop', 'fill'):
                 yield Case(f'points:{conv}:extract_dataframe:{policy}:2:relabelled-table', body_points,
                            dict(conv=conv, nreq=2, policy=policy, api='extract_dataframe', dimname=None, relabel=True), max_paths=50000, split=16)
+                yield Case(f'points:{conv}:extract_dataframe:{policy}:2:relabelled-table:range', body_points,
+                           dict(conv=conv, nreq=2, policy=policy, api='extract_dataframe', dimname=None, relabel='range'), max_paths=50000, split=16)
+            yield Case(f'points:{conv}:select_points:drop:2:integer-coordinates', body_points,
+                       dict(conv=conv, nreq=2, policy='drop', api='select_points', dimname=None, int_coords=(conv == 'cf1d')), max_paths=50000, split=16)
         yield Case(f'points:{conv}:extract_dataframe:fill:custom', body_points,
                    dict(conv=conv, nreq=2, policy='fill', api='extract_dataframe', dimname='station'), max_paths=50000, split=8)
 
